@@ -81,6 +81,8 @@ def toml_of(cfg, absolute_root=None, with_lint=True):
         if absolute_root:
             pats = [os.path.join(absolute_root, p) for p in pats]
         out.append("%s.files = [%s]" % (name, ", ".join("'%s'" % p for p in pats)))
+        if name in (cfg.get("third_party") or []):
+            out.append("%s.is_third_party = true" % name)
     if with_lint and cfg.get("lint"):
         out.append("[lint]")
         for k in sorted(cfg["lint"]):
@@ -191,19 +193,55 @@ def gen_lint(rng):
     return lint
 
 
-def gen_libraries(rng, disk, keep):
-    """A library mapping over the files on disk; files in `keep` (open documents) stay members."""
+def gen_libraries(rng, disk, keep, main=None):
+    """A library mapping over the files on disk; files in `keep` (open documents) stay members.  The main library
+    is called lib or mylib, one file may live in a library of its own (`extra`)."""
     root_files = sorted(f for f in disk if "/" not in f)
     l2_files = sorted(f for f in disk if f.startswith("l2/"))
+    main = main or rng.choice(["lib", "lib", "lib", "mylib"])
     libs = {}
-    if rng.random() < 0.7:
-        libs["lib"] = ["*.vhd"]
+    if rng.random() < 0.65:
+        libs[main] = ["*.vhd"]
     else:
         chosen = [f for f in root_files if f in keep or rng.random() < 0.8]
-        libs["lib"] = chosen or ["*.vhd"]
+        if len(chosen) > 1 and rng.random() < 0.4:
+            moved = rng.choice(chosen)
+            chosen.remove(moved)
+            libs["extra"] = [moved]
+        libs[main] = chosen or ["*.vhd"]
     if any(f in keep for f in l2_files) or rng.random() < 0.7:
         libs["lib2"] = ["l2/*.vhd"]
     return libs
+
+
+def gen_third_party(rng, libs):
+    return sorted(n for n in libs if rng.random() < 0.2)
+
+
+def retouch_libraries(rng, cfg):
+    """The same files, other options: toggle is_third_party, rename the main library, move one explicitly listed
+    file to a library of its own or back (no file is added: such a reload reads nothing new from disk)."""
+    libs = {k: list(v) for k, v in cfg["libraries"].items()}
+    tp = set(cfg.get("third_party") or [])
+    what = rng.choice(["third_party", "third_party", "rename", "move"])
+    main = "mylib" if "mylib" in libs else "lib"
+    if what == "rename" and main in libs:
+        other = "lib" if main == "mylib" else "mylib"
+        libs[other] = libs.pop(main)
+        if main in tp:
+            tp.discard(main)
+            tp.add(other)
+    elif what == "move" and "extra" in libs and main in libs and libs[main] != ["*.vhd"]:
+        libs[main] = sorted(libs[main] + libs.pop("extra"))
+        tp.discard("extra")
+    elif what == "move" and main in libs and libs[main] != ["*.vhd"] and len(libs[main]) > 1 and "extra" not in libs:
+        moved = rng.choice(libs[main])
+        libs[main].remove(moved)
+        libs["extra"] = [moved]
+    else:
+        name = rng.choice(sorted(libs))
+        tp.symmetric_difference_update({name})
+    return libs, sorted(tp & set(libs))
 
 
 CFG = "vhdl_ls.toml"
@@ -222,6 +260,7 @@ def gen_session(rng, name, steps_lo=3, steps_hi=25, full_p=0.15):
         disk["body.vhd"] = variant(rng, "body")
     family = dict(FAMILY_OF)
     cfg = {"libraries": gen_libraries(rng, disk, set()), "lint": gen_lint(rng)}
+    cfg["third_party"] = gen_third_party(rng, cfg["libraries"])
     if rng.random() < 0.12:
         cfg["missing"] = True          # the server starts without vhdl_ls.toml; the file is created later
     sess = {"name": name, "nolint": rng.random() < 0.05, "rel": rng.random() < 0.6,
@@ -287,10 +326,13 @@ def gen_session(rng, name, steps_lo=3, steps_hi=25, full_p=0.15):
                 new["broken"] = True
             elif r < 0.12 and not opened and not cfg.get("missing"):
                 new["missing"] = True
-            elif r < 0.65 and not (cfg.get("broken") or cfg.get("missing")):
+            elif r < 0.50 and not (cfg.get("broken") or cfg.get("missing")):
                 new["lint"] = gen_lint(rng)
+            elif r < 0.75 and not (cfg.get("broken") or cfg.get("missing")):
+                new["libraries"], new["third_party"] = retouch_libraries(rng, cfg)
             else:
                 new["libraries"] = gen_libraries(rng, disk, members_open)
+                new["third_party"] = gen_third_party(rng, new["libraries"])
                 if rng.random() < 0.5:
                     new["lint"] = gen_lint(rng)
             # the FileChangeType(s) the client reports for vhdl_ls.toml: Created when it did not exist, Deleted when it
@@ -952,7 +994,8 @@ def run_check(res, tier, replay, d):
         "flattened cross-file related information, hidden codes); then sessions of 3-25 steps generated from VERIF_SEED over a "
         "workspace of 5-6 small VHDL files (syntax errors, unresolved names, unused / sensitivity-list lints, duplicate "
         "declarations with cross-file related information, second library) with random [lint] tables "
-        "(error|warning|info|hint|false|true), library mappings (glob / explicit / library removed / broken or missing "
+        "(error|warning|info|hint|false|true), library mappings (glob / explicit / library removed / library renamed / "
+        "is_third_party toggled / a file moved to a library of its own, also as reloads that add no file / broken or missing "
         "vhdl_ls.toml, 12% of the servers start without vhdl_ls.toml), every FileChangeType for the configuration file "
         "(Created after a start without it, Deleted, Changed, Created alone, Deleted+Created in one notification), "
         "mixed batches with events of all three types for other files, 5% --no-lint, 40% clients without relatedInformation.  A session is non-trivial when the client "
